@@ -375,6 +375,24 @@ def render_file(g, f):
     return "".join(out)
 
 
+def startstop_export_closure(g, kept):
+    """Nodes reachable from the kept ones plus the members of every start/stop set that ANY node (kept or not) mentions."""
+    nodes = g["nodes"]
+    ref_sets = {j for nd in nodes for j in nd.sets}
+    seen = {k for k in range(len(nodes)) if kept[k] == "1"} | {nd.id for nd in nodes if nd.kind == "m" and nd.set in ref_sets}
+    work = list(seen)
+    while work:
+        nd = nodes[work.pop()]
+        nxt = [t for _, t in nd.succ] + [m.id for j in nd.sets for m in nodes if m.kind == "m" and m.set == j]
+        if nd.lsda is not None:
+            nxt.append(nd.lsda)
+        for t in nxt:
+            if t not in seen:
+                seen.add(t)
+                work.append(t)
+    return seen
+
+
 def model_request(g, no_gc=False, drop_noflag=False):
     """The abstract graph in the model's terms. Node numbering: 0..n-1, n = `.text._start`, then the helper sections.
     Every relocation is an edge, whatever its type; `drop_noflag` leaves out the relocations that need nothing from their symbol
@@ -520,7 +538,13 @@ def run(ctx):
             ctx.count("oracle-ld", "wild-superset" if not missing else "wild-drops-ld-kept")
             if missing:
                 ctx.cov["impl_oracle_failures"] += 1
-                if mode == "undef" and all(k in undef_closure(g, ld_kept) for k in missing):
+                if mode in ("shared", "pie-export-all") and all(k in startstop_export_closure(g, kept) for k in missing):
+                    # GNU ld defines __start_X/__stop_X as soon as ANY input (even a section that is collected) mentions them, gives
+                    # them protected visibility and, in outputs that export their globals, treats them as exported: the X sections
+                    # become roots. wild only defines them for references from kept sections and exports nothing, so nothing outside
+                    # can reach those sections: not a lost reachable section.
+                    ctx.count("oracle-ld", "ld-exports-start-stop-symbols")
+                elif mode == "undef" and all(k in undef_closure(g, ld_kept) for k in missing):
                     ctx.violation("c05:undefined-option-not-a-root",
                                   f"`-u sym` does not keep sym's section under --gc-sections (GNU ld keeps it): nodes {missing} dropped", replay)
                 else:
